@@ -15,7 +15,7 @@ RULE = ('each case is one session (connect, shell family, list, stat, pull, push
         'instead corrupt one packet on the wire (byte flip, bit flip, unknown command word; all-zero payloads included) and demand '
         'InvalidChecksumError / InvalidCommandError. non-trivial = a header or payload was delivered in >= 2 reads, or a corruption fired')
 ASSUMPTIONS = ['a byte-sum checksum detects every single-byte and single-bit change, so the corruption oracle has no false negatives by construction']
-EXPECT_PROBES = {'all': ['hdr_split', 'payload_split', 'empty_reads', 'corrupt_payload', 'corrupt_cmd', 'corrupt_allzero_payload']}
+EXPECT_PROBES = {'all': ['hdr_split', 'payload_split', 'empty_reads', 'corrupt_payload', 'corrupt_cmd', 'corrupt_allzero_payload', 'noise_packet', 'corrupt_noise_packet']}
 KINDS = ['shell', 'exec_out', 'streaming_shell', 'list', 'stat', 'pull', 'push']
 OWN = ('wrong-result', 'unexpected-exception', 'timeout-instead-of-result', 'missing-exception', 'wrong-exception', 'hang', 'no-termination',
        'over-read', 'frag-differs', 'corrupt-delivered', 'corrupt-wrong-exception')
@@ -33,6 +33,10 @@ def generate(seed, tier):
         case['corrupt'] = {'pick': g.int(0, 1 << 30), 'kind': g.pick(['byte', 'bit', 'cmd', 'cmd']), 'off': g.int(0, 1 << 20), 'bitno': g.int(0, 7), 'delta': g.int(0, 253)}
         if g.chance(0.3):
             case['corrupt']['word'] = g.pick([0x59414b4e, 0x5a414b4f, 0x4e45504e, 0x4f4b4159, 0, 0xFFFFFFFF, 0x45545258, g.int(0, 0xFFFFFFFF)])
+        if g.chance(0.3):
+            # packets for streams nobody is reading are interleaved, and one of *those* gets the unknown command word / flipped byte
+            scn['device']['noise_every'] = g.pick([1, 2, 3])
+            case['corrupt']['noise_only'] = True
         # make all-zero payloads (checksum word 0) common in the corruption batch
         if g.chance(0.4):
             for c in scn['device']['cmds'].values():
@@ -84,7 +88,7 @@ def evaluate(case, tapes=None):
         n = run0.device.total_emitted
         s2 = copy.deepcopy(scn)
         at = cor['pick'] % max(1, n)
-        s2['device']['corrupt'] = {'at': at, 'kind': cor['kind'], 'off': cor['off'], 'bitno': cor['bitno'], 'delta': cor['delta']}
+        s2['device']['corrupt'] = {'at': at, 'kind': cor['kind'], 'off': cor['off'], 'bitno': cor['bitno'], 'delta': cor['delta'], 'noise_only': bool(cor.get('noise_only'))}
         if 'word' in cor:
             s2['device']['corrupt']['word'] = cor['word']
         c2 = dict(case)
